@@ -172,6 +172,27 @@ def run_case(ctx, case):
             d2 = C.BitsSwapped(C.Aligned(4, C.GreedyBytes))
             if outcome(lambda: d2.build(data)) != ("ok", ref_bitrev(data + bytes(-n % 4))):
                 bad("bitsswapped-positional-build", "BitsSwapped(Aligned(4, GreedyBytes)).build(%d bytes) -> %r" % (n, outcome(lambda: d2.build(data))))
+            # variable-size fields under a bit swap, FOLLOWED by further members: each takes exactly its own bytes
+            txt = "".join(chr(0x41 + (b % 26)) for b in data[:5])
+            vi = int.from_bytes(data[:3], "big")
+            d4 = C.Struct("a" / C.BitsSwapped(C.PascalString(C.Byte, "ascii")), "b" / C.BitsSwapped(C.VarInt), "c" / C.BitsSwapped(C.CString("ascii")), "t" / C.Bytes(2))
+            plain4 = [C.PascalString(C.Byte, "ascii").build(txt), C.VarInt.build(vi), C.CString("ascii").build(txt)]
+            want4 = b"".join(ref_bitrev(x) for x in plain4) + b"\x5a\xa5"
+            v4 = dict(a=txt, b=vi, c=txt, t=b"\x5a\xa5")
+            if outcome(lambda: d4.build(v4)) != ("ok", want4):
+                bad("bitsswapped-variable-build", "BitsSwapped around variable-size fields inside a Struct: build -> %r, expected %s" % (outcome(lambda: d4.build(v4)), want4.hex()))
+            r4 = outcome(lambda: d4.parse(want4))
+            if r4[0] != "ok" or r4[1].a != txt or r4[1].b != vi or r4[1].c != txt or r4[1].t != b"\x5a\xa5":
+                bad("bitsswapped-variable-parse", "BitsSwapped around variable-size fields followed by further members: parse -> %r" % (r4,))
+            # an XOR-ed region that does not start at offset 0 and whose inner format navigates from the region's end
+            key = bytes([1 + n % 7, 0x5a])
+            inner5 = C.Struct("payload" / C.OffsettedEnd(-2, C.GreedyBytes), "foot" / C.Bytes(2), "last" / C.Pointer(-1, C.Byte))
+            d5 = C.Struct("h" / C.Bytes(3), "p" / C.Prefixed(C.Byte, C.ProcessXor(key, inner5)), "t" / C.Byte)
+            region = data + b"FT"
+            enc5 = b"hdr" + bytes([len(region)]) + bytes(b ^ key[i % 2] for i, b in enumerate(region)) + b"\x09"
+            r5 = outcome(lambda: d5.parse(enc5))
+            if r5[0] != "ok" or r5[1].p.payload != data or r5[1].p.foot != b"FT" or r5[1].p.last != region[-1] or r5[1].t != 9:
+                bad("xor-region-end-relative", "an XOR-ed region behind a header whose inner format navigates from its end: parse -> %r, payload should be %s" % (r5, data.hex()))
             d3 = C.ByteSwapped(C.Struct("a" / C.Aligned(4, C.Bytes(1)), "b" / C.Padded(3, C.Byte))) if n >= 2 else None
             if d3 is not None and outcome(lambda: d3.build(dict(a=data[:1], b=data[1]))) != ("ok", (data[:1] + bytes(3) + data[1:2] + bytes(2))[::-1]):
                 bad("byteswapped-positional-build", "ByteSwapped(Struct(Aligned, Padded)).build -> %r" % (outcome(lambda: d3.build(dict(a=data[:1], b=data[1]))),))
